@@ -753,6 +753,10 @@ class C07Runner:
                 sim.probe("background_job_member_dies_while_another_is_in_front")
             return
         sig = op["sig"]
+        if sig == signal.SIGSTOP and getattr(job, "detached", False):
+            # a member that left the job's process group cannot be reached by the shell's killpg(SIGCONT) any more:
+            # stopping it would only show that, not a defect of `bg`/`fg`
+            return
         if sig == signal.SIGCONT and st != "T":
             return
         if sig == signal.SIGSTOP and st == "T":
